@@ -137,6 +137,108 @@ def check_steppers(seeds):
                                 detail=f'{desc}: {problems[0]} ({len(problems)} problem(s))', cex=dict(kind='stepper', seed=seed)))
     return out
 
+def check_enum_steppers(seeds):
+    """`steps.EnumStrategyStepper` on graphs enumerated from real implementations (C12's instance set).
+
+    init(): the implementation variables of an initial node, satisfying the initial condition for some environment
+    value (z3 on the exported BDD).  step(state) at every node: values for exactly the implementation variables;
+    Moore implementations: allowed by the implementation action for *every* next environment value the environment
+    action admits (query `EnvNext(state, x') /\ ~ Impl(state, x', d)` unsat); Mealy: for some admitted one."""
+    import z3
+    import omega.games.enumeration as enum
+    import omega.steps as steps
+    from vlib import bdd2smt, link
+    out = []
+    for seed in seeds:
+        c = c12.make_case(seed)
+        aut, desc = c12.build_case(c)
+        if aut is None:
+            continue
+        name = f'enumerated stepper #{seed} {c["kind"]} {c["objective"]} moore={c["moore"]} qinit={c["qinit"]}'
+        sample = dict(case=c, game=desc)
+        t1 = time.time()
+        env, impl = list(aut.varlist['env']), list(aut.varlist['impl'])
+        problems, q = [], {}
+        try:
+            with contextlib.redirect_stdout(io.StringIO()):
+                g = enum.action_to_steps(aut, env='env', sys='impl', qinit=c['qinit'])
+            g.inputs, g.outputs = env, impl
+            stepper = steps.EnumStrategyStepper(g)
+        except Exception as e:  # noqa
+            out.append(core.res(name, 'inconclusive', sample=sample, detail=f'graph not constructible: {type(e).__name__}: {e}'))
+            continue
+        exp = bdd2smt.Exporter(aut.bdd)
+        bits = exp.bits
+        t = aut.vars
+        eA, eE, eI = exp.export(aut.action['impl']), exp.export(aut.action['env']), exp.export(aut.init['impl'])
+
+        def sub(term, vals):
+            s_ = []
+            for k, v in vals.items():
+                pr = k.endswith("'")
+                base = k[:-1] if pr else k
+                for b, val in link.value_to_bits(base, t[base], v, pr).items():
+                    s_.append((bits(b), z3.BoolVal(val)))
+            return z3.substitute(term, *s_) if s_ else term
+
+        def chk(fs):
+            sol = z3.Solver()
+            sol.set('timeout', SOLVER_MS)
+            sol.add(*fs)
+            r = str(sol.check())
+            q[r] = q.get(r, 0) + 1
+            return r
+        try:
+            i0 = stepper.init()
+            if set(i0) != set(impl):
+                problems.append(f'init: returned {sorted(i0)} instead of the implementation variables {sorted(impl)}')
+            elif chk([sub(eI, i0)]) != 'sat':
+                problems.append(f'init: values {i0} violate the initial condition of the implementation')
+            elif not any(all(g.nodes[u][k] == i0[k] for k in impl) for u in g.initial_nodes):
+                problems.append(f'init: values {i0} belong to no initial node of the graph')
+        except Exception as e:  # noqa
+            problems.append(f'init: raised {type(e).__name__}: {e}')
+        for n_, d in g.nodes(data=True):
+            state = dict(d)
+            if not list(g.successors(n_)):
+                continue
+            try:
+                nxt = stepper.step(dict(state))
+            except Exception as e:  # noqa
+                problems.append(f'step: raised {type(e).__name__} at node {state}: {str(e)[:80]}')
+                continue
+            if set(nxt) != set(impl):
+                problems.append(f'step: result {nxt} at {state} is not a valuation of the implementation variables {sorted(impl)}')
+                continue
+            cur_env = sub(eE, state)
+            after = sub(sub(eA, state), {k + "'": v for k, v in nxt.items()})
+            if c['moore']:
+                r = chk([cur_env, z3.Not(after)])
+                if r == 'sat':
+                    problems.append(f'step: at {state} the values {nxt} are not allowed by the implementation for some admitted next input')
+                elif r != 'unsat':
+                    problems.append('unknown')
+            else:
+                r = chk([cur_env, after])
+                if r == 'unsat':
+                    problems.append(f'step: at {state} the values {nxt} are allowed for no admitted next input')
+                elif r != 'sat':
+                    problems.append('unknown')
+            if len(problems) > 5:
+                break
+        dt = time.time() - t1
+        sample['nodes'] = len(g)
+        if not problems:
+            out.append(core.res(name, 'holds', queries=q, solver_s=dt, sample=sample, nontrivial=len(g) > 2, functions=FUNCS,
+                                extra=dict(states=len(g))))
+        elif problems == ['unknown']:
+            out.append(core.res(name, 'inconclusive', queries=q, solver_s=dt, sample=sample, detail='solver unknown'))
+        else:
+            out.append(core.res(name, 'violation', queries=q, solver_s=dt, sample=sample, nontrivial=True, functions=FUNCS,
+                                signature='enum-stepper:' + problems[0].split(':')[0],
+                                detail=f'{desc}: {problems[0]} ({len(problems)} problem(s))', cex=dict(kind='enum-stepper', seed=seed)))
+    return out
+
 
 def check_observers(seeds):
     """A component that owns no variable and whose action is a state invariant: `step` must return an empty
@@ -285,6 +387,8 @@ def replay(payload):
         r = check_observers([c['seed']])
     elif c['kind'] == 'stepper':
         r = check_steppers([c['seed']])
+    elif c['kind'] == 'enum-stepper':
+        r = check_enum_steppers([c['seed']])
     else:
         r = check_assemblies([c['seed']], c.get('steps', 12))
     bad = [x for x in r if x['status'] == 'violation']
@@ -304,6 +408,9 @@ def run(tier, seed, t0, only=None):
                           name=f'steppers[{i}]'))
         tasks.append(dict(mod='vlib.props.c19', fn='check_assemblies', kw=dict(seeds=seeds[i:i + 6], steps_n=12 if tier == 'quick' else 40),
                           timeout=1800, name=f'assemblies[{i}]'))
+    for i in range(0, n, 24):
+        tasks.append(dict(mod='vlib.props.c19', fn='check_enum_steppers', kw=dict(seeds=seeds[i:i + 24]), timeout=1800,
+                          name=f'enum-steppers[{i}]'))
     tasks.append(dict(mod='vlib.props.c19', fn='check_observers', kw=dict(seeds=seeds[:24 if tier == 'quick' else 200]),
                       timeout=1800, name='observers[0]'))
     if only:
@@ -321,6 +428,6 @@ def run(tier, seed, t0, only=None):
         assumptions=['CrossHair 0.0.110', 'z3', 'dd node accessors',
                      'component names contain no underscore and visible variables contain no underscore (otherwise the mangling '
                      'scheme itself is ambiguous)'],
-        outside=['assemblies of more than two components', 'Mealy implementations inside assemblies', 'EnumStrategyStepper beyond C12\'s graphs'],
+        outside=['assemblies of more than two components', 'Mealy implementations inside assemblies', 'EnumStrategyStepper beyond graphs of C12\'s instance set; steps.enumerate_impl (raises TypeError on every call: it omits the required env / sys arguments of action_to_steps)'],
         extra_cov=dict(states=sum(r['extra'].get('states', 0) for r in results),
                        transitions=sum(r['extra'].get('transitions', 0) for r in results)))
